@@ -201,6 +201,9 @@ func Harness_C17_list_1_wide() { c17bytes = 9; c17listOnly(1) }
 func Harness_C17_list_2_wide() { c17bytes = 9; c17listOnly(2) }
 func Harness_C17_create_1_wide() { c17bytes = 9; c17stepCreate(1) }
 func Harness_C17_revoke_1_wide() { c17bytes = 9; c17stepRevoke(1) }
+func Harness_C17_create_2_wide() { c17bytes = 9; c17stepCreate(2) }
+func Harness_C17_revoke_2_wide() { c17bytes = 9; c17stepRevoke(2) }
+func Harness_C17_list_3_wide()   { c17bytes = 9; c17listOnly(3) }
 
 func c17stepCreate(n int) {
 	ctx, k := c17env()
